@@ -281,7 +281,8 @@ def case_multifile(ctx, inp):
         if inp.get("bs"):
             kw["blocksize"] = inp["bs"]
         b = read_text(paths, encoding="utf-8", linedelimiter=delim, include_path=inp["include_path"], **kw)
-        got = list(b.compute(scheduler="sync"))
+        got_parts = [list(p) for p in b.map_partitions(lambda p: [list(p)]).compute(scheduler="sync")]
+        got = [x for p in got_parts for x in p]
         nparts = b.npartitions
         stripped = [p.split("://", 1)[-1] for p in paths]
     want = []
@@ -299,6 +300,16 @@ def case_multifile(ctx, inp):
         else:
             ctx.fail("read_text over several files is not the concatenation of the per-file lines",
                      observed=got, expected=want)
+    # partition structure (files_per_partition groups / one partition per block) vs the Lean model
+    mparts = ctx.lean(Sym("readtextfiles"), d, files, inp.get("fpp"), inp.get("bs"))
+    if inp["include_path"]:
+        idx = {p: i for i, p in enumerate(stripped)}
+        idx.update({"/" + p.lstrip("/"): i for i, p in enumerate(stripped)})
+        real_parts = [[[idx[pp], list(l.encode("utf-8"))] for l, pp in part] for part in got_parts]
+        ctx.eq("read_text partitions (include_path)", mparts, _ok(real_parts))
+    else:
+        ctx.eq("read_text partitions", [[il[1] for il in part] for part in mparts[1]],
+               [[list(l.encode("utf-8")) for l in part] for part in got_parts])
     models = [ctx.lean(Sym("readtext"), d, f, inp.get("bs")) for f in files]
     flat = [l for m in models for l in m[1]]
     ctx.eq("multi-file read_text lines", flat, [list((x[0] if inp["include_path"] else x).encode("utf-8")) for x in got])
@@ -471,9 +482,12 @@ def generate(ctx):
 
 
 LEVEL_TEXT = (
-    "Lean theorems over a transliteration of read_bytes' offset loop (IEEE double arithmetic modelled exactly), "
-    "fsspec seek_delimiter/read_block, str.split, decode and file_to_blocks; see notes/bag.md for the list and for "
-    "what is partial. Self-overlapping delimiters: blocksize-independence is refuted in Lean and recorded as a known finding.")
+    "Lean theorems over a transliteration of read_bytes' offset loop with IEEE double arithmetic modelled exactly (offsets_cover; "
+    "the arithmetic assumptions are themselves proved for the model: ieee_good), fsspec seek_delimiter/read_block, str.split, decode, "
+    "file_to_blocks: blocks_concat_file, boundary_after_delimiter, lines_blocksize_independent (all blocksizes incl. none, for "
+    "border-free delimiters; refuted with a witness for self-overlapping ones = known finding), decode = split-after-delimiter without "
+    "empty trailing element, universal-newline default, files_per_partition/include_path. Validated only: fsspec's chunked read loop "
+    "against the one-shot search, UTF-8, encodings, compression. File sizes < 2^53.")
 LEVEL_NOTE = (
     "Trusted: Lean kernel + standard axioms; the correspondence harness (function-level diffs against dask and fsspec, "
     "API-level read_bytes/read_text on in-memory and temp files); CPython float/str semantics; UTF-8 self-synchronisation; "
